@@ -6,7 +6,7 @@ import os, sys
 sys.path.insert(0, os.path.dirname(os.path.dirname(os.path.abspath(__file__))))
 from genlib import *
 import gen_bases as _gb
-from props.c06_radix import to_digits, cpl_of, is_pow2, rand_value, thresholds
+from props.c06_radix import to_digits, cpl_of, is_pow2, rand_value, thresholds, text, digit_char
 
 LEAN_MODULES = ["MpirProofs.Props.C06_dc"]
 THEOREMS = [
@@ -43,7 +43,8 @@ ASSUMPTIONS = ["mpn_get_str above GET_STR_PRECOMPUTE_THRESHOLD is proved for ope
 RULE = ("dc conversions: operand sizes ±2 limbs around GET_STR_DC/PRECOMPUTE thresholds and their doubles, digit counts ±2 around SET_STR_DC/PRECOMPUTE "
         "thresholds and their doubles (read from the build's gmp-mparam.h); bases 10, 3, 36, 62 always plus sampled non-power-of-two bases (all in the "
         "thorough tier); values b^k-1, b^k, b^k+1, long zero runs in the low part (zero padding), leading/embedded/trailing zero digit runs (hn == 0), "
-        "0/1-run limbs; the set_str power table for un around every power of two")
+        "0/1-run limbs; the set_str power table for un around every power of two; streams: what out_str wrote followed by every kind of non-digit "
+        "continuation (and by a digit / a second `/`), read back by inp_str, all bases incl. upper-case output, base-0 prefixes in rationals")
 
 ALWAYS = [10, 3, 36, 62]
 
@@ -148,6 +149,39 @@ def gen_ops(rng, tier, ctx=None):
     for b in bases:
         for un in sorted(uns) if (not quick or b in ALWAYS) else rng.sample(sorted(uns), 6):
             yield "set_str_powtab %s %s" % (hx(b), hx(un))
+    # ---- streams
+    yield from stream_ops(rng, tier)
+
+def stream_ops(rng, tier):
+    """what mpz_out_str / mpq_out_str write, followed by a continuation that does not continue the number, read
+    back by mpz_inp_str / mpq_inp_str (inp_out_roundtrip, mpq_inp_out_roundtrip); and continuations that do"""
+    quick = tier == "quick"
+    for base in list(range(2, 63)) + [-b for b in range(2, 37)]:
+        b = abs(base)
+        # characters that are not digits of base b (under its case rule) and a digit that is
+        non = [0x20, 0x0a, 0x2f, 0x2d, 0x2e, 0x00, 0x80]
+        if b <= 36:
+            if b < 36: non.append(digit_char(36, b)); non.append(digit_char(-36, b))
+        elif b < 62: non.append(digit_char(62, b))
+        dig = digit_char(base, rng.randrange(b))
+        for _ in range(2 if quick else 6):
+            x = rand_int(rng, 3)
+            t = text(base, x)
+            for c in rng.sample(non, 3 if quick else len(non)):
+                yield "mpz_inp_str %s %s" % (hx(b), sbytes(t + bytes([c]) + b"1"))
+            yield "mpz_inp_str %s %s" % (hx(b), sbytes(t))
+            yield "mpz_inp_str %s %s" % (hx(b), sbytes(b" \t" + t + bytes([dig])))      # a digit continues the number
+            n = rand_int(rng, 2); d = rand_int(rng, 2)
+            if rng.random() < 0.3: d = 1
+            q = text(base, n) + (b"" if d == 1 else b"/" + text(base, d))
+            for c in rng.sample([0x20, 0x0a, 0x2e, 0x00], 2):
+                yield "mpq_inp_str %s %s" % (hx(b), sbytes(q + bytes([c]) + b"1"))
+            yield "mpq_inp_str %s %s" % (hx(b), sbytes(q))
+            yield "mpq_inp_str %s %s" % (hx(b), sbytes(q + b"/" + text(base, abs(d) + 2)))   # `/` continues a rational with den 1
+            yield "mpq_out_str %s %s %s" % (hx(base), hx(n), hx(abs(d) or 1))
+    for t in (b"0x1F/0x10 ", b"-0b101/0b11x", b"017/08", b"0x/1", b"1/0x", b" 12/ 3", b"12 /3", b"-/1", b"1/-", b"1/-0", b"0/0"):
+        yield "mpq_inp_str 0 %s" % sbytes(t)
+        yield "mpz_inp_str 0 %s" % sbytes(t)
 
 def nontrivial(line):
     op = line.split(" ", 1)[0]
